@@ -11,12 +11,8 @@ open AHP AHP.Sexp Driver.TokIO
 
 def feed2 (t1 t2 : List Token) : FeedResult :=
   match AHP.run BState.init t1 with
-  | .ok s => .doc s.doc false
-  | .multipleRoot =>
-    match AHP.run BState.init t2 with
-    | .ok s => .doc s.doc true
-    | o => .raised o
-  | o => .raised o
+  | .multipleRoot => FeedResult.ofPass true (AHP.run BState.init t2)
+  | o => FeedResult.ofPass false o
 
 def run (payload : String) : String :=
   match Sexp.parse payload with
